@@ -688,6 +688,12 @@ fn sc_bufwriter(rep: &Report, bound: u32, cap: usize, prog_len: usize) {
                             if n > k {
                                 return fail("count-exceeds-input", format!("write of {k} bytes returned {n}"));
                             }
+                            if n == 0 {
+                                // Ok(0) for a non-empty buffer means "the sink takes nothing more":
+                                // write_all turns it into WriteZero and the payload is lost
+                                let cause = if cap == 0 { "capacity-0" } else if after_err { "after-failed-call" } else { "no-failure" };
+                                return fail(format!("write-returns-zero:{cause}"), format!("write of {k} bytes returned Ok(0) although the sink accepts data"));
+                            }
                             accepted.extend_from_slice(&chunk[..n]);
                             next += n as u8;
                         }
@@ -705,6 +711,10 @@ fn sc_bufwriter(rep: &Report, bound: u32, cap: usize, prog_len: usize) {
                             let flat: Vec<u8> = a.iter().chain(c.iter()).copied().collect();
                             if n > flat.len() {
                                 return fail("count-exceeds-input", format!("write_vectored returned {n}"));
+                            }
+                            if n == 0 {
+                                let cause = if cap == 0 { "capacity-0" } else if after_err { "after-failed-call" } else { "no-failure" };
+                                return fail(format!("write-vectored-returns-zero:{cause}"), "write_vectored of 3 bytes returned Ok(0) although the sink accepts data".to_string());
                             }
                             accepted.extend_from_slice(&flat[..n]);
                             next += n as u8;
